@@ -25,7 +25,9 @@ macro_rules! h {
         #[kani::stub(std::alloc::alloc, alloc_stub)]
         #[kani::stub(alloc::alloc::dealloc_nonnull, dealloc_stub)]
         fn $name() {
-            $body
+            crate::ghost::arm();
+            $body;
+            kani::cover!(true, "end of harness reached");
         }
     };
 }
@@ -106,3 +108,114 @@ conv!(q_conv_thin_rawthin_hs, 5, ThinArc<Dt, Dt>, RawThin<Dt, Dt>, mk_hs_n::<2>(
 conv!(r0_conv_offset_a32, 5, OffsetArc<S33a32>, Raw<S33a32>, mk_a32());
 conv!(r1_conv_arc_rawu_slice, 5, Arc<[Dt]>, RawU<[Dt]>, mk_slice_n::<2>());
 conv!(r2_conv_arc_rawu_dyn, 5, Arc<dyn Tr>, RawU<dyn Tr>, mk_dyn());
+
+// ------------------------------------------------------------------ bounded symbolic histories (DESIGN 4.2)
+// Two slots holding handles of symbolic kinds to ONE allocation; each step is a symbolic choice among
+// clone-into-the-other-slot / convert-in-place / release / uniqueness probe. After every step the count
+// word must equal the number of occupied slots, the payload must be intact, and when the last slot is
+// emptied the value is destroyed and the block returned exactly once. Guards against the inductive
+// invariant being too weak (a "time bomb" left by one operation for a later one).
+enum Slot {
+    Empty,
+    A(Arc<Dt>),
+    O(OffsetArc<Dt>),
+    R(*const Dt),
+}
+impl Slot {
+    fn occupied(&self) -> bool {
+        !matches!(self, Slot::Empty)
+    }
+    fn into_arc(self) -> Arc<Dt> {
+        match self {
+            Slot::A(a) => a,
+            Slot::O(o) => Arc::from_raw_offset(o),
+            Slot::R(p) => unsafe { Arc::from_raw(p) },
+            Slot::Empty => unreachable!(),
+        }
+    }
+    fn from_arc(a: Arc<Dt>, kind: u8) -> Slot {
+        match kind {
+            0 => Slot::A(a),
+            1 => Slot::O(Arc::into_raw_offset(a)),
+            _ => Slot::R(Arc::into_raw(a)),
+        }
+    }
+    fn dup(&self, kind: u8) -> Slot {
+        let a = match self {
+            Slot::A(a) => a.clone(),
+            Slot::O(o) => o.clone_arc(),
+            Slot::R(p) => unsafe { ArcBorrow::from_ptr(*p) }.clone_arc(),
+            Slot::Empty => unreachable!(),
+        };
+        Slot::from_arc(a, kind)
+    }
+}
+fn history<const STEPS: usize>() {
+    let v: u8 = kani::any();
+    let a = Arc::new(Dt::new(0, v));
+    let w = ManuallyDrop::new(unsafe { core::ptr::read(&a) });
+    let blk = a.heap_ptr() as usize;
+    let mut s0 = Slot::A(a);
+    let mut s1 = Slot::Empty;
+    let mut alive = true;
+    let mut step = 0;
+    while step < STEPS {
+        if !alive {
+            break;
+        }
+        let op: u8 = kani::any();
+        let kind: u8 = kani::any();
+        kani::assume(op < 4 && kind < 3);
+        let first: bool = kani::any();
+        // (src, dst) chosen symbolically
+        let (src, dst) = if first { (&mut s0, &mut s1) } else { (&mut s1, &mut s0) };
+        if src.occupied() {
+            match op {
+                0 => {
+                    if !dst.occupied() {
+                        *dst = src.dup(kind);
+                    }
+                }
+                1 => {
+                    let h = core::mem::replace(src, Slot::Empty);
+                    *src = Slot::from_arc(h.into_arc(), kind);
+                }
+                2 => {
+                    let h = core::mem::replace(src, Slot::Empty);
+                    drop(h.into_arc());
+                }
+                _ => {
+                    // uniqueness probe: verdict must be "the other slot is empty"
+                    let other_empty = !dst.occupied();
+                    let h = core::mem::replace(src, Slot::Empty);
+                    let mut arc = h.into_arc();
+                    assert!(Arc::get_mut(&mut arc).is_some() == other_empty, "uniqueness verdict differs from the number of owners");
+                    *src = Slot::from_arc(arc, kind);
+                }
+            }
+        }
+        let n = s0.occupied() as usize + s1.occupied() as usize;
+        if n == 0 {
+            alive = false;
+            assert!(ledger_is(0, 1), "value not destroyed exactly once when the last handle went");
+            assert!(block_of(blk).is_none() && n_live() == 0, "block not returned exactly once");
+        } else {
+            assert!(raw_count(&w) == n, "count differs from the number of owning handles");
+            assert!(ledger_zero() && block_of(blk).is_some(), "destroyed or freed while owners remain");
+            assert!(w.v == v, "payload changed");
+        }
+        step += 1;
+    }
+    kani::cover!(!alive, "history that releases everything");
+    kani::cover!(alive && s0.occupied() && s1.occupied(), "history that ends with two owners");
+    // release what is left
+    if s0.occupied() {
+        drop(core::mem::replace(&mut s0, Slot::Empty).into_arc());
+    }
+    if s1.occupied() {
+        drop(core::mem::replace(&mut s1, Slot::Empty).into_arc());
+    }
+    assert!(ledger_is(0, 1) && n_live() == 0, "after releasing every handle the value must be destroyed once and the block returned");
+}
+h!(t_history_3, 5, history::<3>());
+h!(t_history_2, 4, history::<2>());
